@@ -1394,6 +1394,8 @@ def guard_edges(facts, body, pred):
                     ok = pred(fact)
                     if not ok and fact[0] == 'bool':
                         ok = _holds_via_helper(facts, fact, pred)
+                    if not ok and fact[0] in ('is', 'bool'):
+                        ok = _holds_via_closure(facts, fact, pred)
             except Exception:
                 ok = False
             if ok:
@@ -1416,9 +1418,35 @@ def _holds_via_helper(facts, fact, pred):
         return False
     if cb.locals[0]['ty'] != 'bool' or any(l['ty'].startswith('&mut') for l in cb.locals[1:cb.nargs + 1]):
         return False
-    from .wirelib import subst
     argmap = {i + 1: a for i, a in enumerate(n[2])}
-    want = fact[2]
+    return _returns_only_via(facts, cb, argmap, fact[2], pred)
+
+
+def _holds_via_closure(facts, fact, pred):
+    """fact = `iter.find(|x| c(x))` / `.position(..)` is Some, or `iter.any(|x| c(x))` is true: the element that was found made
+    the closure answer true, so the guard holds when, inside the closure, every path answering true passes an edge on which
+    pred holds (a loop `for x in it { if c(x) { .. } }` rewritten with an iterator adaptor keeps its guard)"""
+    if _HELPER_DEPTH[0] > 0:
+        return False
+    if not ((fact[0] == 'is' and fact[2] == 'Some') or (fact[0] == 'bool' and fact[2] is True)):
+        return False
+    n = strip(fact[1])
+    for _ in range(4):
+        if n[0] in ('ref', 'deref', 'after', 'proj', 'field') and len(n) >= 2:
+            n = strip(n[1])
+    if n[0] != 'call' or len(n[2]) != 2 or n[1].rsplit('::', 1)[-1] not in (('find', 'position', 'rposition', 'find_map') if fact[0] == 'is' else ('any',)):
+        return False
+    clo = strip(n[2][1])
+    if clo[0] != 'agg' or not str(clo[1]).startswith('closure:'):
+        return False
+    cb = facts.bodies.get(clo[1][len('closure:'):])
+    if cb is None or len(cb.blocks) > 80 or cb.locals[0]['ty'] != 'bool':
+        return False
+    return _returns_only_via(facts, cb, {}, True, pred)
+
+
+def _returns_only_via(facts, cb, argmap, want, pred):
+    from .wirelib import subst
     # blocks in which the return place receives a value that can equal `want`
     sites = []
     for bi, bl in enumerate(cb.blocks):
